@@ -109,8 +109,8 @@ CHECKS.update({
 })
 
 CHECKS.update({
-    "C28": ("6/C28", "Every starting schema {fresh; schema_migrations recorded up to k=1..N; legacy PRAGMA user_version=k without the bookkeeping table} x 1..3 consecutive run_migrations() calls x {caller commits / only closes} x {connection reused / new connection per run} on real DB files with the repository's migration files; normalized sqlite_master + table_info, schema_migrations rows and a pre-existing data row, read through a separate connection after every run, compared with a freshly migrated database.",
-            "The space is finite and enumerated completely (108 histories for 4 migrations).", ENUM_TECH),
+    "C28": ("6/C28", "Every starting schema {fresh; schema_migrations recorded up to k=1..N; legacy PRAGMA user_version=k without the bookkeeping table} x 1..3 consecutive run_migrations() calls x {caller commits / only closes} x {connection reused / new connection per run} on real DB files with the repository's migration files; normalized sqlite_master + table_info, schema_migrations rows and a pre-existing data row, read through a separate connection after every run, compared with a freshly migrated database; plus, for every starting schema, runs in which the f-th schema-changing operation is refused (SQLite authorizer; every f): the abandoned file must sit at a version boundary and the following runs must converge.",
+            "The space is finite and enumerated completely (108 fault-free histories + 189 faulted ones for 4 migrations).", ENUM_TECH),
 })
 
 CHECKS.update({
